@@ -53,7 +53,9 @@ A_COMMON = [
 
 define('C01', 'multiplexing is transparent', SCALAR + MISC_OPS + PLUMB + TEE + [op('spawners', 'group_by_mux')] + HELP('batch', 'distinct_until_changed', 'math', 'formal', 'misc')
        + PLAIN('scan', 'flat_map', 'assert_1', 'dispatch') + LEAN('KT', 'L2') + [bounded('mux', 'check_c01')],
-       A_COMMON + ['RxPY plain operators (ops.map/filter/first/last/take/to_list/do_action) are assumed to have their documented list semantics'], 'DESIGN 7/C01')
+       A_COMMON + ['RxPY plain operators (ops.map/filter/first/last/take/to_list/do_action) are assumed to have their documented list semantics'], 'DESIGN 7/C01',
+       level='other', level_why='partial: every per-operator refinement obligation (mux handler = keyed transducer of the plain operator) is discharged, but the statement also compares *when '
+       'upstream work stops*: take / first do not end a multiplexed key, so items behind the cut are still evaluated (known finding KF5); the property is not claimed as proved')
 define('C02', 'state confinement', STORE + SCALAR + SEQ + [op('seqops', 'assert_1_mux')] + SPAWN + TEE + HELP('batch', 'distinct_until_changed', 'formal') + LEAN('KT', 'L2', 'L3b')
        + [bounded('mux', 'check_c02')], A_COMMON, 'DESIGN 7/C02')
 define('C03', 'mux event protocol', SCALAR + SEQ + MISC_OPS + PLUMB + ERRORS + SPAWN + TEE + LEAN('L3', 'L3b') + [bounded('mux', 'check_c03')], A_COMMON, 'DESIGN 7/C03',
@@ -68,7 +70,9 @@ define('C08', 'tee_map join', TEE + [bounded('mux', 'check_c08')], A_COMMON + ['
        level='other', level_why='partial: the join handlers and the wiring are discharged for every event case (n = 2, 3 branches); on plain cold sources a branch of RxPY operators that subscribe '
        'through the scheduler misses the items (known finding KF3), so the plain half of the property is not claimed as proved')
 define('C09', 'scan/reduce algebra', [op('scalar', 'scan_mux')] + LEAN('L2') + PLAIN('scan') + HELP('batch', 'distinct_until_changed', 'math', 'formal', 'misc') + STORE + [bounded('mux', 'check_c09')],
-       A_COMMON, 'DESIGN 7/C09')
+       A_COMMON, 'DESIGN 7/C09',
+       level='other', level_why='partial: the fold / seed-isolation / terminator obligations are discharged under assumption A2 (values kept in typed arrays are in range); an int accumulator that '
+       'leaves the signed 64-bit range fails on a multiplexed source only (known finding KF4), so the property is not claimed as proved')
 define('C10', 'per-key sequence operators', [op('scalar', n) for n in ('first_mux', 'take_mux', 'last_mux')] + SEQ + HELP('batch', 'distinct_until_changed') + PLAIN('to_deque')
        + STORE + [bounded('mux', 'check_c10')], A_COMMON + ['sorted() is a stable sort (trusted)'], 'DESIGN 7/C10')
 define('C11', 'streaming promptness', SCALAR + SEQ + PLUMB + SPAWN + TEE + HELP('batch') + [bounded('mux', 'check_c11')],
